@@ -85,6 +85,32 @@ func C17(blk *hist.Block) []Finding {
 		out = append(out, Finding{"C17", "C17/fee-pool/not-gas-used-times-price", fmt.Sprintf("block %d: fee records grew by %s, gas used times price of the executed transactions is %s", blk.H, dFees, wantFees)})
 	}
 	out = append(out, simpleBlock(blk)...)
+	// a transaction made for another network is refused
+	for _, t := range olvm {
+		if t.Meta["foreign_chain"] != "" && t.Call.Code == 0 {
+			out = append(out, Finding{"C17", "C17/precheck/foreign-chain-id-executed", fmt.Sprintf("block %d: OLVM transaction of %s made for chain id %s (payload and signature) was executed", blk.H, t.Meta["from"], t.Meta["foreign_chain"])})
+		}
+	}
+	// a successful deployment leaves the new contract with what its address held before plus the endowment
+	for _, t := range olvm {
+		if c := t.Meta["contract"]; c != "" && t.Meta["create"] != "" && t.Call.Code == 0 && len(olvm) == 1 {
+			if _, deployed := blk.Cur["keeper_"+rawOf(c)]; !deployed || !keeperHasCode(blk.Cur, rawOf(c)) {
+				continue
+			}
+			named := false
+			for _, o := range blk.Txs {
+				if o.Kind != "OLVM" && o.Call.Code == 0 {
+					if pj, _ := json.Marshal(Payload(o.Bytes)); strings.Contains(string(pj), c) {
+						named = true
+					}
+				}
+			}
+			want := new(big.Int).Add(amountAt(blk.Prev, "b_"+c+"_OLT"), bigOf(t.Meta["value"]))
+			if got := amountAt(blk.Cur, "b_"+c+"_OLT"); !named && got.Cmp(want) != 0 {
+				out = append(out, Finding{"C17", "C17/deployment/contract-balance", fmt.Sprintf("block %d: contract %s deployed with an endowment of %s at an address that held %s: it holds %s", blk.H, c, t.Meta["value"], amountAt(blk.Prev, "b_"+c+"_OLT"), got)})
+			}
+		}
+	}
 	senders := map[string]int{}
 	for _, t := range olvm {
 		senders[t.Meta["from"]]++
